@@ -377,6 +377,85 @@ def thread_variants(F):
     return changed
 
 
+def _known_const(stmts, local, depth=0):
+    """integer/bool constant held by `local` at the end of a statement list (its last whole assignment there is a constant, followed
+    through plain moves); None when unknown"""
+    for idx in range(len(stmts) - 1, -1, -1):
+        st = stmts[idx]
+        if st["k"] != "assign" or st["dst"]["l"] != local:
+            continue
+        if st["dst"].get("p"):
+            return None
+        rv = st["rv"]
+        if rv["k"] == "use" and rv["a"].get("k") == "const" and isinstance(rv["a"].get("value"), int) and not isinstance(rv["a"].get("value"), bool):
+            return rv["a"]["value"]
+        if rv["k"] == "use" and rv["a"].get("k") in ("move", "copy") and not rv["a"]["p"].get("p") and depth < 4:
+            return _known_const(stmts[:idx], rv["a"]["p"]["l"], depth + 1)
+        return None
+    return None
+
+
+def thread_consts(F):
+    """Jump threading for flags: `let hit = matches!(..); if hit { .. }` assigns a constant to a local on every way into a join and
+    then branches on it. The branching block is cloned per predecessor that has just assigned a constant and the clone jumps straight
+    to the arm for that constant (path duplication: sound), so the tests that decided the flag dominate the arm again."""
+    changed = False
+    for _ in range(3):
+        preds = {}
+        for b in F["blocks"]:
+            t = b["term"]
+            if t["k"] == "goto" and isinstance(t.get("t"), int):
+                preds.setdefault(t["t"], []).append(b["id"])
+        did = False
+        for J in list(F["blocks"]):
+            t = J["term"]
+            if t["k"] != "switch" or J.get("cleanup") or t["discr"].get("k") not in ("move", "copy") or t["discr"]["p"].get("p") or t.get("threaded"):
+                continue
+            src = t["discr"]["p"]["l"]
+            moves = {}
+            ok = True
+            for st in J["stmts"]:
+                rv = st.get("rv", {})
+                if st["k"] == "assign" and not st["dst"].get("p") and rv.get("k") == "use" and rv["a"].get("k") in ("move", "copy") and not rv["a"]["p"].get("p"):
+                    moves[st["dst"]["l"]] = rv["a"]["p"]["l"]
+                elif st["k"] in ("storage_live", "storage_dead", "nop", "fake_read"):
+                    continue
+                else:
+                    ok = False
+                    break
+            if not ok:
+                continue
+            n = 0
+            while src in moves and n < 4:
+                src = moves[src]
+                n += 1
+            for P, extra, loc in _sources(F, preds, J["id"], src):
+                if P["term"]["k"] != "goto":
+                    continue
+                v = _known_const(P["stmts"], loc)
+                if v is None:
+                    continue
+                hit = [tg for val, tg in t["targets"] if val == v]
+                tgt = hit[0] if hit else t["otherwise"]
+                clone = {"id": len(F["blocks"]), "stmts": copy.deepcopy(extra) + copy.deepcopy(J["stmts"]), "term": {"k": "goto", "t": tgt, "sp": t.get("sp"), "threaded_from": J["id"]}}
+                F["blocks"].append(clone)
+                P["term"] = dict(P["term"])
+                P["term"]["t"] = clone["id"]
+                did = changed = True
+        if not did:
+            break
+    return changed
+
+
+def _changed_since_baseline(p, f):
+    """the function's body differs from the pinned tree's (by block count, callee set or fingerprint), or it is new"""
+    base = shapes().get("fns", {}).get(p)
+    if base is None:
+        return "{closure" not in p and f.get("kind") != "Closure"
+    callees = sorted({(b["term"].get("callee") or "?") for b in f["blocks"] if b["term"]["k"] == "call"})
+    return base.get("nblocks") != len(f["blocks"]) or base.get("callees") != callees or base.get("fp") != fingerprint(f)
+
+
 def _eligible(p, f, kn):
     if p in kn or f.get("kind") == "Closure" or "{closure" in p or f.get("impl_trait") or f.get("is_test"):
         return False
@@ -652,6 +731,8 @@ def normalise(prog):
         return []
     aliased = alias_renames(prog)
     prog.aliased = aliased
+    # functions whose body differs from the pinned tree's get flag threading (identity on the pinned tree)
+    rewritten = [p for p, f in prog.fns.items() if f.get("blocks") and f.get("crate") in prog.crates and _changed_since_baseline(p, f)]
     expanded = set()
     for _ in range(MAX_ROUNDS):
         new = {p: f for p, f in prog.fns.items() if _eligible(p, f, kn)}
@@ -717,6 +798,9 @@ def normalise(prog):
     for f in prog.fns.values():
         if f.get("inlined"):
             thread_variants(f)
+    for p in rewritten:
+        if p in prog.fns:
+            thread_consts(prog.fns[p])
     # drop helpers that are no longer called and are not part of the public surface
     still_called = {b["term"].get("callee") for f in prog.fns.values() for b in f["blocks"] if b["term"]["k"] == "call"}
     for p in list(expanded):
